@@ -37,15 +37,15 @@ Print Assumptions C20_refine_subgraph.
 Theorem C20_every_block_keeps_a_successor : forall solver, sound solver ->
   forall blocks g g', cfg_new blocks = Ok g -> refine solver g = Ok g' ->
   (forall b, In b (g_blocks g) -> 0 <= ab_off b < 2 ^ 256) ->
-  (forall b c t f, In b (g_blocks g) -> ab_exit b = XBranch c t f -> 0 <= f < 2 ^ 256) ->
+  (forall b c t f, In b (g_blocks g) -> ab_exit b = ABranch c t f -> 0 <= f < 2 ^ 256) ->
   forall b, In b (g_blocks g) -> exists e, In e (g_edges g') /\ fst e = NBlock (ab_off b).
 Proof. intros solver Hs blocks g g' H1 H2 H3 H4. exact (every_block_keeps_a_successor solver Hs blocks g g' H1 H2 H3 H4). Qed.
 Print Assumptions C20_every_block_keeps_a_successor.
 
 (* a block that ends by halting or falling through has exactly its one mandatory edge *)
 Theorem C20_mandatory_successor : forall sorted jts b,
-  (ab_exit b = XTerminate -> block_edges sorted jts b = [(NBlock (ab_off b), NTerm)]) /\
-  (forall f, ab_exit b = XFallThrough f ->
+  (ab_exit b = ATerminate -> block_edges sorted jts b = [(NBlock (ab_off b), NTerm)]) /\
+  (forall f, ab_exit b = AFallThrough f ->
      block_edges sorted jts b = [(NBlock (ab_off b), match find_block sorted f with Some _ => NBlock f | None => NTerm end)]).
 Proof. exact mandatory_edge. Qed.
 Print Assumptions C20_mandatory_successor.
@@ -57,9 +57,9 @@ Proof. exact edges_from_block. Qed.
 Print Assumptions C20_edges_come_from_their_block.
 
 Example C20_example :
-  let b0 := mkab 0 false (XBranch [SVar 1] [SConst 4] 3) in
-  let b3 := mkab 3 false XTerminate in
-  let b4 := mkab 4 true (XUnconditional [SVar 1]) in
+  let b0 := mkab 0 false (ABranch [SVar 1] [SConst 4] 3) in
+  let b3 := mkab 3 false ATerminate in
+  let b4 := mkab 4 true (AUnconditional [SVar 1]) in
   run_cfg_new [b0; b3; b4] =
   "ok:Offset: 0x0;Offset: 0x3;Offset: 0x4|Offset: 0x0 -> Offset: 0x3;Offset: 0x0 -> <bad-jump>;Offset: 0x0 -> Offset: 0x4;Offset: 0x3 -> <terminate>;Offset: 0x4 -> <bad-jump>;Offset: 0x4 -> Offset: 0x4".
 Proof. vm_compute. reflexivity. Qed.
@@ -78,11 +78,11 @@ Check C20_refine_subgraph : forall solver g g',
 Check C20_every_block_keeps_a_successor : forall solver, sound solver ->
   forall blocks g g', cfg_new blocks = Ok g -> refine solver g = Ok g' ->
   (forall b, In b (g_blocks g) -> 0 <= ab_off b < 2 ^ 256) ->
-  (forall b c t f, In b (g_blocks g) -> ab_exit b = XBranch c t f -> 0 <= f < 2 ^ 256) ->
+  (forall b c t f, In b (g_blocks g) -> ab_exit b = ABranch c t f -> 0 <= f < 2 ^ 256) ->
   forall b, In b (g_blocks g) -> exists e, In e (g_edges g') /\ fst e = NBlock (ab_off b).
 Check C20_mandatory_successor : forall sorted jts b,
-  (ab_exit b = XTerminate -> block_edges sorted jts b = [(NBlock (ab_off b), NTerm)]) /\
-  (forall f, ab_exit b = XFallThrough f ->
+  (ab_exit b = ATerminate -> block_edges sorted jts b = [(NBlock (ab_off b), NTerm)]) /\
+  (forall f, ab_exit b = AFallThrough f ->
      block_edges sorted jts b = [(NBlock (ab_off b), match find_block sorted f with Some _ => NBlock f | None => NTerm end)]).
 Check C20_edges_come_from_their_block : forall blocks g b e,
   cfg_new blocks = Ok g -> In b (g_blocks g) -> In e (g_edges g) -> fst e = NBlock (ab_off b) ->
